@@ -42,6 +42,14 @@ Proof.
   eexists; split; [reflexivity | eapply map_ok_one; eauto].
 Qed.
 
+Lemma mk_map_chg_ok : forall en x v t t', lookup en x = Some v -> mem P v t' ->
+  exists m, mk_map_chg P x t t' = Some m /\ map_ok P en m.
+Proof.
+  intros en x v t t' Hl Hm. unfold mk_map_chg. destruct (ty_same P t' t).
+  - eexists; split; [reflexivity | apply map_ok_nil].
+  - eapply mk_map_ok; eauto.
+Qed.
+
 Lemma eval_var : forall f en x v, eval P f en (EVar x) = Val v -> lookup en x = Some v.
 Proof. intros [|f] en x v H; simpl in H; [discriminate|]. destruct (lookup en x); inversion H; reflexivity. Qed.
 
@@ -395,8 +403,8 @@ Proof.
     { intro b. split; intro; eexists; split; try reflexivity; apply map_ok_nil. }
     destruct e; inversion Hi; subst; (split; [constructor|]); try apply G.
     apply eval_var in Ev. split; intro Hv; simpl in *.
-    + destruct v; try discriminate. eapply mk_map_ok; eauto.
-    + eapply mk_map_ok; eauto. apply N2. intro; subst; discriminate.
+    + destruct v; try discriminate. eapply mk_map_chg_ok; eauto.
+    + eapply mk_map_chg_ok; eauto. apply N2. intro; subst; discriminate.
   - (* EIsNotNone *)
     simpl in Hi.
     destruct (infer P true d fr e) as [[t1 m1]| |] eqn:E1; simpl in Hi; try discriminate.
@@ -406,8 +414,8 @@ Proof.
     { intro b. split; intro; eexists; split; try reflexivity; apply map_ok_nil. }
     destruct e; inversion Hi; subst; (split; [constructor|]); try apply G.
     apply eval_var in Ev. split; intro Hv; simpl in *.
-    + eapply mk_map_ok; eauto. apply N2. intro; subst; discriminate.
-    + destruct v; try discriminate. eapply mk_map_ok; eauto.
+    + eapply mk_map_chg_ok; eauto. apply N2. intro; subst; discriminate.
+    + destruct v; try discriminate. eapply mk_map_chg_ok; eauto.
   - (* EIsInst *)
     simpl in Hi.
     destruct (infer P true d fr e) as [[t1 m1]| |] eqn:E1; simpl in Hi; try discriminate.
@@ -420,7 +428,8 @@ Proof.
     destruct (narrow_isinst P true t1 k) as [[yes no]| |] eqn:En; simpl in Hi; try discriminate.
     inversion Hi; subst. split; [constructor|].
     destruct (narrow_isinstance_sound P Htrans _ _ _ _ _ En M1) as [Y N].
-    apply eval_var in Ev. split; intro Hv; simpl in *; eapply mk_map_ok; eauto.
+    apply eval_var in Ev. split; intro Hv; simpl in *; [|eapply mk_map_ok; eauto].
+    destruct t1; try (eapply mk_map_chg_ok; eauto); eapply mk_map_ok; eauto.
   - (* ENot *)
     simpl in Hi.
     destruct (infer P true d fr e) as [[t1 [mi me]]| |] eqn:E1; simpl in Hi; try discriminate.
